@@ -6,7 +6,8 @@ from harness import res_common as rc
 def run(ck):
     rc.run_property(ck, "mask_C04", rc.oracle_C04, fixed=rc.FIXED_HISTORIES)
     ck.run_fixed({"failed_generation_with_waiters": "C04:factory-called-again-after-failed-generation",
-                  "waiting_component_gets_the_async_factorys_product": "C04:async-lookup-does-not-generate"})
+                  "waiting_component_gets_the_async_factorys_product": "C04:async-lookup-does-not-generate",
+                  "racing_lookups_generate_once": "C04:factory-called-twice"})
 
 
 def replay(ck, obj):
